@@ -680,6 +680,9 @@ func vfGenHostileSpecs(tier string, seed uint64, race bool) []vfSpec {
 						}
 						for i := 0; i < 3; i++ {
 							sc := vfStreamCfg{SID: uint16(i + 1), Dir: i % 2, NMsgs: 30 + r.Intn(40), SizeMode: "mixed", Reader: "fast"} //nolint:gosec
+							if st == shutdownPending || st == shutdownReceived {
+								sc.NMsgs = 400 // data must still be outstanding when the state is entered
+							}
 							if st == shutdownReceived {
 								sc.Dir = 0 // the peer must have nothing outstanding to be able to send SHUTDOWN while our packets are held
 							}
